@@ -1077,7 +1077,7 @@ def mpf_pow_int(s, n, prec, rnd=round_fast):
     # Use exact integer power when the exact mantissa is small
     if man == 1:
         return (result_sign, MPZ_ONE, exp*n, 1)
-    if bc*n < 1000:
+    if bc*n < 10000:
         man **= n
         return normalize1(result_sign, man, exp*n, bitcount(man), prec, rnd)
 
